@@ -39,7 +39,7 @@ type c07Script struct {
 	Msgs       []c07Msg      `json:"msgs"`
 	Deliveries []c07Delivery `json:"deliveries"`
 	ColdSeal   bool          `json:"cold_seal,omitempty"` // the sealer works on a fresh OS thread per call
-	Giant      string        `json:"giant,omitempty"` // one message of 2^32 bytes or more (see giant.go); everything else is ignored
+	Giant      string        `json:"giant,omitempty"`     // one message of 2^32 bytes or more (see giant.go); everything else is ignored
 }
 
 type c07 struct{}
@@ -59,7 +59,13 @@ func (c07) Plan(tier string) core.Plan {
 // nonce and aad. One script per (ptlen, tagsize), many deliveries each.
 var c07SysPt = []int{0, 1, 16, 17, 64, 100}
 
-const c07SysN = 6 * 2 * 2
+const c07SysSmall = 6 * 2 * 2
+
+// long messages (the bulk loops of the accelerated routines): 2^k + delta bytes
+var c07BigK = []uint{17, 18, 20, 22}
+var c07BigDelta = []int{0, 1, 47, 63}
+
+const c07SysN = c07SysSmall + 4*4
 
 // thorough tier only: messages whose body, total length or additional data reach 2^32 bytes
 var c07Giants = []string{"body", "k3", "aad"}
@@ -67,7 +73,7 @@ var c07Giants = []string{"body", "k3", "aad"}
 func (c07) Meta() core.Meta {
 	return core.Meta{
 		Level: "exploration",
-		Rule: "systematic: plaintext lengths {0,1,16,17,64,100} x tag sizes {12,16} x {assembly, portable}: every single-bit flip of the tag, every truncation of the ciphertext to 0..len-1 bytes, extensions by 1 and 16 bytes, first/last-bit flips of body, nonce and aad; seeded: 1-4 sealed messages per run (all length classes 0..1100, nonce sizes 1..300, tag sizes 12..16), 1-8 deliveries each through the wire: untouched, replayed, single-bit flip in body/tag/nonce/aad, truncation (incl. below the tag size), extension, tag truncated/extended, tag of A on body of B, nonce/aad of A with message B; opener destination nil / spare capacity / in place. thorough tier only: three messages of 2^32 bytes and more (body 2^32+5 with a forged copy whose flipped bit lies beyond offset 2^32; total length 2^32+3; additional data 2^32+7), opened into a fresh destination and in place. " +
+		Rule: "systematic: long messages of 2^k + {0,1,47,63} bytes for k in {17,18,20,22} (authentic, three single-bit forgeries, authentic in place); plaintext lengths {0,1,16,17,64,100} x tag sizes {12,16} x {assembly, portable}: every single-bit flip of the tag, every truncation of the ciphertext to 0..len-1 bytes, extensions by 1 and 16 bytes, first/last-bit flips of body, nonce and aad; seeded: 1-4 sealed messages per run (all length classes 0..1100, nonce sizes 1..300, tag sizes 12..16), 1-8 deliveries each through the wire: untouched, replayed, single-bit flip in body/tag/nonce/aad, truncation (incl. below the tag size), extension, tag truncated/extended, tag of A on body of B, nonce/aad of A with message B; opener destination nil / spare capacity / in place. thorough tier only: three messages of 2^32 bytes and more (body 2^32+5 with a forged copy whose flipped bit lies beyond offset 2^32; total length 2^32+3; additional data 2^32+7), opened into a fresh destination and in place. " +
 			"non-trivial = the wire changed or replayed something, or the opener used a non-nil destination; distinct = distinct (path, nonce/tag size class, multiset of (corruption kind x field, plaintext length class, dst class, expected verdict))",
 		Components: map[string]string{"sm4 GCM Seal/Open (amd64 assembly)": "real", "crypto/cipher generic GCM over portable sm4 (path switch off)": "real", "wire": "stub (simulated corruption)", "arm64 assembly": "not run",
 			"oracle": "the wire's own record (byte identity with a sealed triple); keystream for the would-be plaintext from the library's own Seal of zeros"},
@@ -127,7 +133,18 @@ func (c07) Generate(idx int, r *core.Rand, tier string) core.Script {
 	if tier == "thorough" && idx >= c07SysN && idx < c07SysN+len(c07Giants) {
 		return &c07Script{Asm: true, AEAD: aeadSpec{NonceSize: 12, TagSize: 16}, Giant: c07Giants[idx-c07SysN]}
 	}
-	if idx < c07SysN {
+	if idx >= c07SysSmall && idx < c07SysN {
+		j := idx - c07SysSmall
+		pt := 1<<c07BigK[j/4] + c07BigDelta[j%4]
+		s := &c07Script{Asm: true, AEAD: aeadSpec{Key: hx(bytes.Repeat([]byte{byte(0x70 + j)}, 16)), NonceSize: 12, TagSize: 16},
+			Msgs: []c07Msg{{PtLen: pt, AadLen: 21, PtSeed: 11, AadSeed: 12, NonceSeed: 13}}}
+		for _, m := range [][]wire.Mut{nil, {{Field: "ct", Kind: "flip", I: 8*pt - 1}}, {{Field: "ct", Kind: "flip", I: 8 * (pt / 2)}}, {{Field: "ct", Kind: "flip", I: 8*pt + 127}}, nil} {
+			s.Deliveries = append(s.Deliveries, c07Delivery{Msg: 0, Muts: m, Dst: dstSpec{Mode: "nil"}})
+		}
+		s.Deliveries[4].Dst = dstSpec{Mode: "inplace"}
+		return s
+	}
+	if idx < c07SysSmall {
 		i := idx
 		asm := i%2 == 0
 		i /= 2
